@@ -74,6 +74,19 @@ __attribute__((noinline)) void run_roundtrip(long id, const char *desc, u64 nran
             Q q2 = d;                         // implicit construction of the quantity from the duration
             c_ctor = q2.in(typename Q::Unit{});
         }
+        // every value category of the duration: non-const / const lvalue, prvalue, xvalue, const xvalue
+        R vc[5] = {};
+        VF_PHASE(vf::PH_OPERATION) {
+            D m{x};
+            vc[0] = au::as_quantity(m).in(typename Q::Unit{});
+            vc[1] = au::as_quantity(D{x}).in(typename Q::Unit{});
+            vc[2] = au::as_quantity(std::move(m)).in(typename Q::Unit{});
+            vc[3] = au::as_quantity(std::move(d)).in(typename Q::Unit{});   // d is const: a const rvalue
+            Q q3 = std::move(d);
+            vc[4] = q3.in(typename Q::Unit{});
+        }
+        g_st.evals += 5;
+        for (int k = 0; k < 5; ++k) if (!vfw::Bits<R>::same(vc[k], x)) mismatch("as_quantity(value category)", x, vc[k]);
         g_st.evals += 4;
         if (!vfw::Bits<R>::same(qv, x)) mismatch("as_quantity_count", x, qv);
         if (!vfw::Bits<R>::same(c_impl, x)) mismatch("implicit_back", x, c_impl);
@@ -172,6 +185,13 @@ void accept_fact(long id, const char *desc, const char *target) {
     using CQ = au::CorrespondingQuantityT<D>;
     printf("{\"ev\":\"daccept\",\"id\":%ld,\"desc\":\"%s\",\"target\":\"%s\",\"duration_convertible\":%d,\"quantity_convertible\":%d}\n", id, desc, target,
            (int)std::is_convertible<D, QTarget>::value, (int)std::is_convertible<CQ, QTarget>::value);
+    // the same question for every cv/ref form of the duration type must have the same answer
+    const bool forms[5] = {std::is_convertible<const D, QTarget>::value, std::is_convertible<D &, QTarget>::value, std::is_convertible<const D &, QTarget>::value,
+                           std::is_convertible<D &&, QTarget>::value, std::is_convertible<const D &&, QTarget>::value};
+    const char *names[5] = {"const D", "D&", "const D&", "D&&", "const D&&"};
+    for (int k = 0; k < 5; ++k)
+        printf("{\"ev\":\"daccept\",\"id\":%ld,\"desc\":\"%s (%s)\",\"target\":\"%s\",\"duration_convertible\":%d,\"quantity_convertible\":%d}\n", id, desc, names[k], target,
+               (int)forms[k], (int)std::is_convertible<CQ, QTarget>::value);
 }
 
 }  // namespace vfc17
